@@ -246,7 +246,7 @@ OCT [0-7]
     }
 }
 
-<STRING_EMBEDDED>. {
+<STRING_EMBEDDED>(.|[\n]) {
   yylval->f->str += *yyget_text (yyscanner);
 }
 
